@@ -1519,6 +1519,19 @@ def depth_boundary_programs():
     for k in range(19, 29):
         out.append({"rules": [], "items": [_item(k="data", w=8, es=[{"k": "call", "f": "cnt", "args": [numlit(str(k))]}])], "fns": [cnt]})
         out.append({"rules": [rule], "items": [_item(k="instr", toks=[tok("id", "f", True), tok("num", "", True, list(str(k)))])], "fns": [cnt]})
+    # chains of macros, each block one instruction long, around the nesting the depth limit allows (12 levels);
+    # the innermost one is a base instruction, or calls a function that adds levels of its own
+    nop = {"block": "cpu", "sub": False, "pat": [_lit("nop"), {"p": "ws"}, _par("a")], "prod": concat([numlit("0x01"), {"k": "sshort", "e": var("a"), "n": numlit("8")}])}
+    fnop = {"block": "cpu", "sub": False, "pat": [_lit("nop"), {"p": "ws"}, _par("a")],
+            "prod": concat([numlit("0x01"), {"k": "sshort", "e": {"k": "call", "f": "cnt", "args": [var("a")]}, "n": numlit("8")}])}
+    for k in range(9, 16):
+        for bottom, arg, fns in ((nop, "5", []), (fnop, "0", [cnt]), (fnop, "2", [cnt])):
+            rules = [bottom]
+            for i in range(k):
+                inner = "nop" if i == 0 else "m%d" % (i - 1)
+                rules.append({"block": "cpu", "sub": False, "pat": [_lit("m%d" % i), {"p": "ws"}, _par("a")],
+                              "prod": {"k": "asm", "assigns": [], "lines": [{"k": "instr", "name": "", "toks": [tok("id", inner, True), ph("a", True)]}]}})
+            out.append({"rules": rules, "items": [_item(k="instr", toks=[tok("id", "m%d" % (k - 1), True), tok("num", "", True, list(arg))])], "fns": fns})
     return out
 
 
